@@ -36,15 +36,22 @@ IntVals(w) == LET lo == Neg(Pow2(w - 1)) hi == Dec(Pow2(w - 1)) IN
               { lo, Inc(lo), FromInt(-1), Zero, FromInt(1), Dec(hi), hi } \cup (IF w < 64 THEN { Dec(lo), Inc(hi), Mul(FromInt(3), Pow2(w - 2)) } ELSE {})
 AllInts == UNION { IntVals(w) : w \in Widths } \cup { FromInt(300), FromInt(-200), Add(Pow2(31), FromInt(705032704)) }     \* 300 -> int8, 3000000000 -> int32
 Fits(v, w) == Cmp(v, Neg(Pow2(w - 1))) >= 0 /\ Cmp(v, Dec(Pow2(w - 1))) <= 0
+\* an integer answer scanned into a float destination with a p-bit significand (float32: 24, float64: 53): exactly v or an error.
+\* v is representable iff its binary digits after the first p are all zero.
+Representable(v, p) == LET bs == BitsOf(v.mag) IN \A i \in (p + 1)..Len(bs) : bs[i] = 0
+FloatDests == {24, 53}
+FloatInts == { FromInt(0), FromInt(1), FromInt(-3), Pow2(24), Inc(Pow2(24)), Add(Pow2(24), FromInt(2)), Neg(Inc(Pow2(24))), Pow2(53), Inc(Pow2(53)), Add(Pow2(53), FromInt(2)),
+               Neg(Inc(Pow2(53))), Dec(Pow2(63)), Neg(Pow2(63)), Add(Pow2(62), FromInt(1)), Mul(FromInt(3), Pow2(60)) }
 
 VARIABLES kind, val, dq, w, done
 vars == <<kind, val, dq, w, done>>
 Init == \/ kind = "value" /\ val \in Values /\ dq \in DQ /\ w = 0 /\ done = FALSE
         \/ kind = "scanint" /\ val \in AllInts /\ dq = "codes" /\ w \in Widths /\ done = FALSE
+        \/ kind = "scanfloat" /\ val \in FloatInts /\ dq = "codes" /\ w \in FloatDests /\ done = FALSE
 Next == ~done /\ done' = TRUE /\ UNCHANGED <<kind, val, dq, w>>
 Spec == Init /\ [][Next]_vars
 Emit == done => PrintT("CASE " \o ToJson(IF kind = "value" THEN [kind |-> kind, val |-> val, dq |-> dq, term |-> ToTerm(val, dq)]
-                                          ELSE [kind |-> kind, v |-> val, w |-> w, fits |-> Fits(val, w)]))
+                                          ELSE [kind |-> kind, v |-> val, w |-> w, fits |-> IF kind = "scanint" THEN Fits(val, w) ELSE Representable(val, w)]))
 \* --- laws ---
 \* the length of the text is preserved in every representation (characters, not bytes); a string never becomes anything but text of that flag's shape
 Shape == (done /\ kind = "value" /\ val[1] = "str") =>
